@@ -113,6 +113,7 @@ type OpRec struct {
 	Lost      bool // in flight when the server crashed: never answered
 	Callbacks int
 	Meta      map[string]any
+	Txs       []*OpTx // its store transactions in commit order (spec check)
 }
 
 func (o *OpRec) Status() int {
@@ -138,6 +139,7 @@ type TxInfo struct {
 	Commands []*t_aio.Command
 	Results  []*t_aio.Result // nil when the batch failed
 	Seq      int
+	Dispatch int64 // tick at which the coroutine dispatched it
 }
 
 type BatchInfo struct {
@@ -192,6 +194,7 @@ type Sim struct {
 
 	logOn bool
 	log   []string
+	spec  bool // judge every reply against the sequential specification
 
 	ilsig    []string // commit order signature parts
 	crashes  int
@@ -767,7 +770,7 @@ func (s *Sim) afterBatch(t int64, g []*pendSQE, cqes []*bus.CQE[t_aio.Submission
 	s.rep.Commits++
 	bi := &BatchInfo{Tick: t, Index: s.batches}
 	for i, p := range g {
-		tx := &TxInfo{ReqId: p.ReqId(), Name: p.Name(), Commands: p.sqe.Submission.Store.Transaction.Commands, Seq: p.seq}
+		tx := &TxInfo{ReqId: p.ReqId(), Name: p.Name(), Commands: p.sqe.Submission.Store.Transaction.Commands, Seq: p.seq, Dispatch: p.tick}
 		if cqes[i].Error != nil {
 			bi.Err = cqes[i].Error
 		} else {
@@ -788,6 +791,11 @@ func (s *Sim) afterBatch(t int64, g []*pendSQE, cqes []*bus.CQE[t_aio.Submission
 	}
 	s.nextEv()
 	s.mon.OnBatch(s.snap, bi, next)
+	for _, tx := range bi.Txs {
+		if o := s.opById[tx.ReqId]; o != nil {
+			o.Txs = append(o.Txs, &OpTx{Tx: tx, Prev: s.snap, Next: next, Tick: t, Dispatch: tx.Dispatch, Alone: len(bi.Txs) == 1, Failed: bi.Err != nil})
+		}
+	}
 	s.snap = next
 }
 
